@@ -7,8 +7,8 @@ Used by `Lemmas/d04ConvNoInv.lean` for `prepareUnknownResult`.
 import CtyModel.Lemmas.ConvertRefine
 import CtyModel.Lemmas.MarksSets
 namespace CtyModel
-namespace Convert
-open Refine
+namespace D04R
+open Convert Refine
 
 theorem stepNotNull_bmarks {b b' : Builder} (h : stepNotNull b = .ok b') : b'.marks = b.marks := by
   unfold stepNotNull at h
@@ -214,5 +214,5 @@ theorem prepareUnknownResult_clean {src : ValueRange} {t : Ty} {r : Value}
     obtain ⟨hi, _, h⟩ := Res.bind_eq_ok h
     exact key _ _ _ hr0 h
 
-end Convert
+end D04R
 end CtyModel
